@@ -66,6 +66,7 @@ GATES = {
     "seed-lengths": ["seedlen:16", "seedlen:32", "seedlen:64", "seedlen:other"],
     "negatives": ["neg:pub-child-hardened-refused", "neg:pub-traverse-hardened-refused"],
     "memo": ["memo:populated-checked"],
+    "repository-tests-under-contracts": {"quick": [], "thorough": ["repotests:run"]},
 }
 
 _state = {"tracked": [], "root": None}
@@ -610,9 +611,13 @@ def check_memo(ctx):
 
 # ---- workload -----------------------------------------------------------------------------------
 def shards(tier, seed):
-    n = 16
-    per = {"quick": 12, "thorough": 200}[tier]
-    return [{"name": "walk", "idx": i, "n": n, "per": per, "budget_s": 900 if tier == "quick" else 5400} for i in range(n)]
+    # 16 processes in both tiers: thorough = the repository's test modules under the contracts + 15 workload shards
+    n = 16 if tier == "quick" else 15
+    per = {"quick": 12, "thorough": 170}[tier]
+    out = [{"name": "walk", "idx": i, "n": n, "per": per, "budget_s": 900 if tier == "quick" else 10800, "hard_timeout_s": 1500 if tier == "quick" else 14000} for i in range(n)]
+    if tier == "thorough":
+        out.insert(0, {"name": "repotests", "idx": 0, "n": 1, "budget_s": 10800, "hard_timeout_s": 14000, "modules": ["buidl.test.test_hd", "buidl.test.test_blinding"]})
+    return out
 
 
 def _rand_index(rng, hardened):
@@ -845,10 +850,30 @@ def _stub_entropy(rng):
     blinding.randbelow = lambda n: rng.randrange(n)
 
 
+def _run_repo_tests(ctx, names):
+    """Thorough tier only: the repository's own test modules executed under the installed contracts
+    (an additional workload; a failing test is noted, never a verdict by itself)."""
+    import io
+    import unittest
+
+    from vmon.core import Quiet
+
+    suite = unittest.defaultTestLoader.loadTestsFromNames(names)
+    with Quiet():
+        res = unittest.TextTestRunner(stream=io.StringIO(), verbosity=0).run(suite)
+    ctx.note("repotests", {"modules": names, "run": res.testsRun, "failures": len(res.failures), "errors": len(res.errors), "skipped": len(res.skipped),
+                           "not-passing": [str(t[0]) for t in (res.failures + res.errors)][:12]})
+    ctx.count("repotests:run", res.testsRun)
+
+
 def run_shard(desc, ctx):
     ec.selfcheck()
     bip32.selfcheck()
     install()
+    if desc["name"] == "repotests":
+        _run_repo_tests(ctx, desc["modules"])
+        check_memo(ctx)
+        return
     rng = ctx.rng()
     _stub_entropy(ctx.rng("entropy"))
     for j in range(desc["per"]):
